@@ -17,7 +17,7 @@ from vlib import scenario as S
 
 LEVEL = 'exploration'
 TIERS = {
-    'quick': {'budget': 45, 'watchdog': 400, 'shards': 1},
+    'quick': {'budget': 55, 'watchdog': 400, 'shards': 1},
     'thorough': {'budget': 420, 'watchdog': 900, 'shards': 16},
 }
 POOL = ['/', '/a', '/b']
@@ -738,6 +738,12 @@ def run(ctx):
     ctx.require('binary_frames_spelling_text_packets', 10)
     ctx.require('lone_surrogate_texts', 10)
     ctx.require('offender_text_relayed', 10)
+    # the offender's well-formed churn handled by one thread while another
+    # thread serves a bystander (controlled scheduler, statement level)
+    from checks import c12_sched
+    ctx.require('churn_race_schedules', 200)
+    ctx.require('bystander_probes_checked', 500)
+    c12_sched.run_part(ctx, (ctx.budget or 45) * 0.22)
     k = 0
     while not ctx.out_of_time() and not ctx.too_many_violations():
         traced = k % 3 == 0
@@ -753,4 +759,7 @@ def run(ctx):
 
 
 def replay(ctx, w):
+    if w['witness'].get('part') == 'churn_race':
+        from checks import c12_sched
+        return c12_sched.replay(ctx, w)
     run_case(ctx, w['witness']['case_index'])
